@@ -160,6 +160,14 @@ def case(kind: str, sh: dict, pid: str):
                 if p == pid:
                     I.prove(f"{p}.{kind}.{label}{sfx}", cond, note)
 
+            # what the block holds *before* the library looks at it (the encoder must not
+            # change the caller's data, and everything below is measured against this)
+            f1 = B.fields(I, kind, blk)
+            snap_masks, snap_rows = [], []
+            if pid == "C05" and kind in ("data3d", "emg", "force3d", "fpdata"):
+                for t_ in tracks_of(kind, blk):
+                    snap_masks.append(presence_mask(I, kind, t_, n))
+                    snap_rows.append([[B.tob(I, a_[f_], "<f4") for f_ in range(n)] for a_ in all_components(I, kind, t_, n)])
             exc = None
             try:
                 declared = blk.nBytes
@@ -217,7 +225,6 @@ def case(kind: str, sh: dict, pid: str):
             P("C02", "decode_consumes_exactly_nBytes", pos == declared, f"pos={pos} declared={declared}")
             P("C02", "decoded_nBytes_same", blk2.nBytes == declared)
 
-            f1 = B.fields(I, kind, blk)
             f2 = B.fields(I, kind, blk2)
             B.observe_fields(I, "decoded", f2)
             if pid == "C01":
@@ -277,7 +284,7 @@ def case(kind: str, sh: dict, pid: str):
                 ts3 = tracks_of(kind, blk3)
                 any_gap = False
                 for k, t in enumerate(ts):
-                    mask = presence_mask(I, kind, t, n)
+                    mask = snap_masks[k]
                     want = runs_of(mask)
                     if not all(mask):
                         any_gap = True
@@ -302,8 +309,8 @@ def case(kind: str, sh: dict, pid: str):
                             for a in c2:
                                 gap_nan.extend(B.isnan_list(I, a[f]))
                         else:
-                            for a, b in zip(c1, c2):
-                                present_same.append(B.tob(I, a[f], "<f4") == B.tob(I, b[f], "<f4"))
+                            for ai, b in enumerate(c2):
+                                present_same.append(snap_rows[k][ai][f] == B.tob(I, b[f], "<f4"))
                         for a, b in zip(c2, c3):
                             stable.append(B.tob(I, a[f], "<f4") == B.tob(I, b[f], "<f4"))
                     # the caller writes into the first decode (every frame of every component);
@@ -398,6 +405,9 @@ def shapes(tier: str, pid: str):
     A(("events", {"events": [(1, 2)], "lab": [2], "edit": "append"}))
     A(("optical", {"channels": 1, "lab": [2], "edit": "append"}))
     if pid == "C02":
+        # empty 2D cells (no points) in both spellings: sizes and consumption must still agree
+        A(("data2d", {"cells": [["e1", 1], [1, "e2"]]}))
+        A(("data2d", {"cells": [[1, "e1", 2]]}))
         # sizes must agree also when a deciding component is +-inf (stored as a gap)
         for kind, key in (("data3d", "tracks"), ("emg", "signals"), ("force3d", "tracks"), ("fpdata", "plats")):
             A((kind, {"n": 2, key: 1, "lab": [1], "links": 0, "allow_inf": True}))
